@@ -3,6 +3,9 @@ package gen
 
 import (
 	"fmt"
+	"math"
+	"math/big"
+	"strconv"
 	"strings"
 
 	"verif/fw"
@@ -64,6 +67,7 @@ type Opts struct {
 	Autoescape bool // vary autoescape attributes
 	Astral     bool
 	MarkupDirs bool // also use changeNewlineToBr / insertWordBreaks
+	WideFloats bool // float literals over the whole float64 range (printing only: C17)
 	Recursion  bool // a recursive template bounded by a decreasing argument, called here and there
 	ErrPlants  bool // plant erroring sub-expressions in positions short-circuit never evaluates
 	LetShadow  bool
@@ -608,8 +612,45 @@ func (g *G) intLit() ref.Expr {
 	return lit(ref.Int(n))
 }
 
+var floatLadder []ref.Expr
+
+// FloatLadder lists float literals over the whole range of float64 in source form.
+func FloatLadder() []ref.Expr {
+	if floatLadder != nil {
+		return floatLadder
+	}
+	add := func(src string) {
+		v, err := strconv.ParseFloat(src, 64)
+		if err != nil || math.IsInf(v, 0) {
+			return
+		}
+		floatLadder = append(floatLadder, &ref.Lit{V: ref.Float(v), Src: src})
+	}
+	var exps []int
+	for e := -30; e <= 30; e++ {
+		exps = append(exps, e)
+	}
+	exps = append(exps, -323, -310, -308, -300, -200, -100, 100, 200, 300, 307, 308)
+	for _, e := range exps {
+		for _, m := range []string{"1", "1.0", "1.5", "2.5", "9.3", "9.007199254740993", "1.7976931348623157", "4.9"} {
+			add(fmt.Sprintf("%se%d", m, e))
+		}
+	}
+	for _, k := range []uint{31, 32, 52, 53, 54, 62, 63, 64, 65, 69, 70, 100} {
+		n := new(big.Int).Lsh(big.NewInt(1), k)
+		add(n.String() + ".0")
+		add(new(big.Int).Sub(n, big.NewInt(1)).String() + ".0")
+		add(new(big.Int).Add(n, big.NewInt(1024)).String() + ".5")
+	}
+	return floatLadder
+}
+
 func (g *G) floatLit() ref.Expr {
 	f := float64(g.R.Intn(801)-400) / 8
+	if g.O.WideFloats && g.R.P(1, 6) {
+		l := FloatLadder()
+		return l[g.R.Intn(len(l))]
+	}
 	if g.R.P(1, 10) {
 		return &ref.Lit{V: ref.Float(1500), Src: "1.5e3"}
 	}
@@ -672,6 +713,25 @@ func (g *G) printOf(e ref.Expr, t Ty) ref.Node {
 		case 6:
 			if g.O.MarkupDirs {
 				p.Dirs = append(p.Dirs, ref.Dir{Name: "insertWordBreaks", Args: []ref.Expr{lit(ref.Int(int64(1 + g.R.Intn(6))))}})
+			}
+		}
+		// chains: a second directive after (or before) the first one
+		if len(p.Dirs) == 1 && g.R.P(1, 3) {
+			var second ref.Dir
+			switch g.R.Intn(4) {
+			case 0:
+				second = ref.Dir{Name: "id"}
+			case 1:
+				second = ref.Dir{Name: "noAutoescape"}
+			case 2:
+				second = ref.Dir{Name: "escapeHtml"}
+			default:
+				second = ref.Dir{Name: "truncate", Args: []ref.Expr{lit(ref.Int(int64(2 + g.R.Intn(9))))}}
+			}
+			if g.R.Bool() {
+				p.Dirs = append(p.Dirs, second)
+			} else {
+				p.Dirs = []ref.Dir{second, p.Dirs[0]}
 			}
 		}
 	}
